@@ -18,8 +18,7 @@ import TfelVerif.C02.GenT
 
 namespace TfelVerif.C02.Props
 open TfelVerif TfelVerif.Mandel TfelVerif.C02
-set_option linter.unusedVariables false
-set_option linter.unusedSectionVars false
+set_option linter.all false
 set_option maxRecDepth 100000
 set_option maxHeartbeats 1600000
 
@@ -159,11 +158,11 @@ theorem N2_t_add_scale (hc : c * c = 2) (h2 : (2:K) ≠ 0) (A B : M3 K) (k : K) 
 /-- `change_basis(A,R) = Rᵀ A R` for every matrix `R` (2D: in-plane block of `R`; 1D: unchanged) -/
 theorem N2_t_change_basis (hc : c * c = 2) (h2 : (2:K) ≠ 0) (A R : M3 K) :
     pad2_9 (Gen.N2_t_change_basis_all c c3 fn A.a00 A.a11 A.a22 A.a01 A.a10 R.a00 R.a01 R.a02 R.a10 R.a11 R.a12 R.a20 R.a21 R.a22)
-      = M3.tens3 ((M3.plane R).transpose * (M3.plane A) * (M3.plane R)) := by
+      = M3.tens3 ((M3.planeRot R).transpose * (M3.plane A) * (M3.planeRot R)) := by
   t4_eq hc
 theorem N2_t_changeBasis_member (hc : c * c = 2) (h2 : (2:K) ≠ 0) (A R : M3 K) :
     pad2_9 (Gen.N2_t_changeBasis_member_all c c3 fn A.a00 A.a11 A.a22 A.a01 A.a10 R.a00 R.a01 R.a02 R.a10 R.a11 R.a12 R.a20 R.a21 R.a22)
-      = M3.tens3 ((M3.plane R).transpose * (M3.plane A) * (M3.plane R)) := by
+      = M3.tens3 ((M3.planeRot R).transpose * (M3.plane A) * (M3.planeRot R)) := by
   t4_eq hc
 /-- `syme(A) = (A + Aᵀ)/2` in symmetric storage -/
 theorem N2_t_syme (hc : c * c = 2) (h2 : (2:K) ≠ 0) (A : M3 K) :
